@@ -934,6 +934,8 @@ class EqCongurentPredMacro(Macro):
         goal = Or(*args)
         elems = goal.strip_disj()
         preds, pred_fun, concl = elems[:-2], elems[-2], elems[-1] 
+        if not all(p.is_not() and p.arg.is_equals() for p in preds):
+            raise VeriTException("eq_congruent_pred", "all but the last two literals should be negated equalities")
         if pred_fun.is_not():
             args_pair = [(i, j) for i, j in zip(pred_fun.arg.strip_comb()[1], concl.strip_comb()[1])]
         else:
@@ -942,6 +944,8 @@ class EqCongurentPredMacro(Macro):
             preds_pair = [(i.arg.lhs, i.arg.rhs) for i in preds]
         else:
             preds_pair = [(preds[0].arg.lhs, preds[0].arg.rhs), (preds[0].arg.lhs, preds[0].arg.rhs)]
+        if len(args_pair) > len(preds_pair):
+            raise VeriTException("eq_congruent_pred", "not enough equalities for the arguments")
 
         for arg, pred in zip(args_pair, preds_pair):
             if arg == pred:
